@@ -52,6 +52,8 @@ def make_plan(seed: int, tier: str, opts: dict) -> dict:
             pairs[0] = (r.choice(["gen", "top"]), pairs[0][1])  # the uniform (scan) execution paths are what many slots per kind stress
     for ep in eps:
         ep["until_active"] = True
+        if r.random() < opts.get("mid_record_p", 0.15):
+            ep["mid_record"] = r.randrange(1, max(2, ep["nsteps"]))  # the record is also fetched once in the middle of the episode
     wall = r.random() < opts.get("wall_p", 0.15) and train is None  # recordings made under WALL_CLOCK (virtual clock) must replay just the same
     # (not combined with a trainable delay: under the wall clock messages arrive when they arrive, a trainable delay only exists in the compiled replay)
     if wall:
